@@ -76,7 +76,7 @@ def run(ctx):
         if use_all:
             for _ in range(rnd.randrange(0, 7)):
                 kind = rnd.choice(["bank", "bank", "cc", "inv"])
-                infos.append({"kind": kind, "acctid": acct(rnd), "accttype": rnd.choice(["CHECKING", "SAVINGS", "MONEYMRKT", "CREDITLINE"]) if kind == "bank" else "",
+                infos.append({"kind": kind, "acctid": acct(rnd), "accttype": rnd.choice(["CHECKING", "SAVINGS", "MONEYMRKT", "CREDITLINE", "CHECKING", "SAVINGS", "CD"]) if kind == "bank" else "",
                               "instid": {"bank": "999", "cc": "", "inv": "brk.srv"}[kind], "status": rnd.choice(STATUSES)})
             if rnd.random() < 0.25:
                 for x in infos:
